@@ -93,6 +93,14 @@ func checkC20() fw.Check {
 					reqs = append(reqs, c20Req{method: m, cap: cp, fault: "none", e2e: 1, queries: 1, ctxEnded: true})
 				}
 			}
+			// the path is longer than the requested TTL range: the SACK trace succeeds without ever reaching the target. SACK
+			// is available all the same - no SYN trace "to complete it"
+			for _, m := range []string{"sack", "prefer_sack"} {
+				for _, cp := range []string{"sack-ok", "sack-ok-ts"} {
+					reqs = append(reqs, c20Req{method: m, cap: cp, fault: "none", e2e: 0, queries: 1, maxTTL: 3, dist: 6},
+						c20Req{method: m, cap: cp, fault: "none", e2e: 1, queries: 2, maxTTL: 4, dist: 7})
+				}
+			}
 			// a spelling variant of the protocol ("TCP"): whether it is accepted is C19's business; IF it is accepted, the
 			// method policy applies unchanged (end-to-end probes use SYN, ...)
 			for _, m := range []string{"sack", "prefer_sack", "syn"} {
